@@ -34,3 +34,34 @@ CHECKS["C16"] = dict(
         level_note="Trusts ASan (freed/foreign slot use), the ASan malloc hook for 'never allocates', and the harness's independent WOPN writer for bank-file loads.",
     ),
 )
+
+CHECKS["C15"] = dict(
+    harnesses={"pbt": dict(src="c15_wopn.cpp", cfg="asan", kind="rc"),
+               "fuzz": dict(src="c15_wopn.cpp", cfg="asan", kind="fuzz", extra_flags=["-DVERIF_FUZZ"])},
+    quick=[
+        dict(name="pbt", harness="pbt", workers=8, args=["--n", "1500", "--maxbanks", "12"]),
+        dict(name="fuzz", harness="fuzz", workers=6, empty_corpus_workers=2, args=["-runs=12000", "-max_len=40000", "-len_control=0"]),
+    ],
+    thorough=[
+        dict(name="pbt", harness="pbt", workers=16, args=["--n", "6000", "--maxbanks", "64"], timeout=7200),
+        dict(name="fuzz", harness="fuzz", workers=16, empty_corpus_workers=4, args=["-max_total_time=600", "-max_len=60000", "-len_control=0"], timeout=3600),
+    ],
+    rule="pbt: generated WOPNFile/OPNIFile values (1..N melodic and percussion banks, names of length 0/1/max-1/max with optional bytes after the NUL, "
+         "boundary-biased field values, blank flags, background instruments from a generated seed) saved as v1, v2 and 'latest' into exact-size, "
+         "oversized(canary) and too-small exact heap blocks, reloaded and compared with the carried projection written from docs/wopn specification.txt; "
+         "non-trivial = a name within 1 byte of its field size, or >2 banks, or a blank entry; distinct by FNV-64 of the serialised value. "
+         "fuzz: libFuzzer byte strings through both loaders; non-trivial = accepted by a loader (then save/reload fixed-point is checked inside the target).",
+    assumptions=[
+        "values have at least one melodic and one percussion bank (the in-memory representation cannot hold zero: WOPN_Init substitutes one blank bank)",
+        "instrument names compare as C strings of at most 31 bytes, bank names of at most 32 bytes (the loader terminates them)",
+        "for version-1 values identity is judged on the fields the v1 format carries (the property's own exception list)",
+    ],
+    min_nontrivial={"quick": 200, "thorough": 2000},
+    manifest=dict(
+        engine="rapidcheck + libFuzzer",
+        technique="round-trip property testing over generated values (rapidcheck) and accepted byte strings (libFuzzer) against a projection oracle, with exact-size ASan-guarded destinations",
+        level_text="Round trip save/load is compared field by field against an independently written 'carried projection' for versions 1, 2 and latest; "
+                   "destinations of every interesting size are exact heap blocks so ASan sees a single byte of overrun; accepted fuzz inputs must be fixed points. Sampled, not exhaustive.",
+        level_note="Trusts ASan red zones as the overrun detector, and the harness's reading of the WOPN specification for what each version carries.",
+    ),
+)
